@@ -2,12 +2,12 @@
 """Apply every behaviour-preserving refactoring in /verif/refactors to /repo in turn (always reverted) and run all claimed
 checks: any VIOLATION or CHECK-FAILED is a false alarm / brittleness of the checker. Writes refactors/MATRIX.json."""
 import json, os, subprocess, sys
-sys.path.insert(0, '/verif')
+ROOT = os.environ.get('VERIF_ROOT', '/verif'); sys.path.insert(0, ROOT)
 from mokalint.props import PROPERTIES
-sys.path.insert(0, '/verif/tools')
+sys.path.insert(0, ROOT + '/tools')
 from _runall import run_all, REPO
 only = sys.argv[1:]
-base = '/verif/refactors'
+base = ROOT + '/refactors'
 res = {}
 assert subprocess.run(['git', '-C', REPO, 'diff', '--quiet']).returncode == 0, '/repo dirty'
 for d in sorted(os.listdir(base)):
